@@ -212,8 +212,8 @@ Definition lin_nice_adm (o : tickopts) (base eb : Z) (smn smx : Q) (tolv : Q -> 
                   existsb (fun f => existsb (fun la =>
                      (la - f + 1 <=? o_max o)%Z &&
                      let nmn := inject_Z f * sp in let nmx := inject_Z la * sp in
-                     let x := if Qleb nmn smn then nmn else smn in
-                     let y := if Qleb smx nmx then nmx else smx in
+                     let x := if f64_fin nmn && Qleb nmn smn then nmn else smn in
+                     let y := if f64_fin nmx && Qleb smx nmx then nmx else smx in
                      within (tolv x) x a && within (tolv y) y b) La) F) (zrange (c - 3) 7)
        || (within (tolv smn) smn a && within (tolv smx) smx b && lin_none_adm o base eb smn smx true hi rn))
   end.
@@ -247,7 +247,7 @@ Definition lin_nice_from (base eb : Z) (smn smx : Q) (rn : flres) : Q * Q :=
       let sp := lin_spacing base eb l in
       let '(f, la) := lin_first_last smn smx sp true in
       let nmn := inject_Z f * sp in let nmx := inject_Z la * sp in
-      (if Qleb nmn smn then nmn else smn, if Qleb smx nmx then nmx else smx)
+      (if f64_fin nmn && Qleb nmn smn then nmn else smn, if f64_fin nmx && Qleb smx nmx then nmx else smx)
   | _ => (smn, smx)
   end.
 
